@@ -142,6 +142,27 @@ int main(int argc, char** argv) {
 	multi(rng, cache, ds, jit, 7, 0, 20011);
 	if (thorough) { for (int i = 0; i < 6; ++i) multi(rng, cache, ds, jit, 2 + rng.below(15), rng.below((uint32_t)(total - 300000)), 100000 + rng.below(200000)); }
 	if (thorough && atoi(arg(argc, argv, "--full", "0"))) multi(rng, cache, ds, jit, 16, 0, total);
+	// the SAME cache object re-keyed: what the initialiser produces must follow the current key, whatever the object held before
+	// (keys related to the previous one: proper prefix, extension, same first 60 bytes = same SuperscalarHash seed, embedded NUL, empty)
+	{
+		std::vector<std::vector<uint8_t>> seq;
+		std::vector<uint8_t> k0 = rng.bytes(24); k0[5] = 0;                                  // contains a NUL
+		seq.push_back(k0);
+		seq.push_back(std::vector<uint8_t>(k0.begin(), k0.begin() + 11));                    // proper prefix (cut after the NUL)
+		seq.push_back(k0);                                                                   // back to the longer key
+		{ auto k = k0; k.back() ^= 1; seq.push_back(k); }                                    // same length, differs in the last byte only
+		{ auto k = rng.bytes(70); seq.push_back(k); k[65] ^= 0x80; seq.push_back(k); }       // two keys with identical first 60 bytes
+		seq.push_back(std::vector<uint8_t>());                                               // the empty key
+		seq.push_back(std::vector<uint8_t>(k0.begin(), k0.begin() + 5));                     // "xxxxx" = prefix that ends right before the NUL
+		int step = 0;
+		for (auto& k : seq) {
+			randomx_init_cache(cache, k.data(), k.size());
+			{ Line l; l.str("e", "rekey").num("step", step++).num("len", (long long)k.size()); l.emit(out); }
+			one(cache, ds, jit, 4 * (unsigned long)rng.below(8000000), 8);
+			one(cache, ds, jit, total - 5, 5);
+			one(cache, ds, jit, 1 + 4 * (unsigned long)rng.below(8000000), 3);
+		}
+	}
 	ds->memory = libmem;
 	randomx_release_dataset(ds); randomx_release_cache(cache);
 	fclose(out);
